@@ -613,6 +613,7 @@ def _run_mixin(case, folder):
     out = {"steps": [int(x) for x in ex._exported_timesteps]}
     try:
         idx = ex2.import_from_pvd(sub / "data.pvd", keys=["q"])
+        out["restart_files"] = [str(f) for f in ex2._restart_files]
         tm2.load_time_information(sub / "times.json")
         tm2.set_time_and_dt_from_exported_steps(idx)
         ex2._time_step_counter = idx
@@ -675,7 +676,7 @@ def impl_run(case):
             "parsed": [[d, a in (0, 2), st] for a, d, st in truth_names],
             "manual": rec["manual"]["truth"], "errors": sorted(rec["errors"]),
             "pvd_conditions": [True, True], "input": rec["input"],
-            "mixin": None if rec["mixin"] is None else {k: v for k, v in rec["mixin"].items() if k != "q"}}
+            "mixin": None if rec["mixin"] is None else {k: v for k, v in rec["mixin"].items() if k not in ("q", "restart_files")}}
 
 
 def model_ops(case):
@@ -767,6 +768,13 @@ def oracle(case):
                         bad = None if g is None else [i for i, (a, b) in enumerate(zip(w, g)) if a != b][:4]
                         add(f"{route}: entity {e} of {k}, field {name}: written {w[:6]}.. imported {None if g is None else g[:6]}.. "
                             f"(first differing positions {bad}; steps {case['steps']}, labels {_labels(case)})", f"roundtrip-differs-{route}-{k}-{name}")
+        if route == "pvd" and "restart_files" in info:
+            st0, stl = case["steps"][0], case["steps"][last]
+            allowed = {e_name for e_name in rec["files"] if e_name.endswith(f"_{stl:06d}.vtu") and "_constant_" not in e_name}
+            allowed |= {e_name for e_name in rec["files"] if "_constant_" in e_name and e_name.endswith(f"_{st0:06d}.vtu")}
+            if set(info["restart_files"]) != allowed:
+                add(f"import_from_pvd took the files {sorted(set(info['restart_files']))} as the most recent step, the files of step {stl} are "
+                    f"{sorted(allowed)} (labels {_labels(case)})", "pvd-restart-files")
         if "time_index" in info and info["time_index"] != case["steps"][last]:
             add(f"{route}: returned time index {info['time_index']}, most recent exported step {case['steps'][last]} (labels {_labels(case)})", f"time-index-{route}")
 
@@ -804,7 +812,8 @@ def oracle(case):
         ws, mx = case["mixin"], rec["mixin"]
         k = len(ws) - 1
         exp = {"steps": list(range(len(ws))), "index": k, "time": frac(float(ws[k][0])), "dt": frac(float(ws[k][1])),
-               "times": [frac(float(t)) for t, _ in ws[:k]], "dts": [frac(float(h)) for _, h in ws[:k]], "q": [frac(k + 0.5), frac(-k - 0.25)]}
+               "times": [frac(float(t)) for t, _ in ws[:k]], "dts": [frac(float(h)) for _, h in ws[:k]], "q": [frac(k + 0.5), frac(-k - 0.25)],
+               "restart_files": [f"data_1_{k:06d}.vtu"]}
         if mx != exp:
             add(f"mixin path over {len(ws)} steps (times {[t for t, _ in ws]}): restart gave {mx}, expected {exp}", "mixin-restart")
 
@@ -983,8 +992,12 @@ def gen_case(rng, tier):
             sizes.append([rng.choice([nc, 2 * nc, 3 * nc, nc + 1, 2 * nc + 1, max(1, nc - 1)]), nc])
         case["input"] = {"present": [rng.random() < 0.6 for _ in range(rng.randint(2, 3))], "sizes": sizes}
     if rng.random() < 0.5:
-        k = rng.choice([1, 2, 3, 3, 11])
-        t0, h = rng.choice([0.0, 0.5, 9.5, 98.0]), rng.choice([0.5, 1.0, 0.25, 2.5, 0.1])
+        if rng.random() < 0.4:  # stratum: large times, small relative spacing, >= 3 steps
+            k = rng.choice([3, 4, 5])
+            t0, h = rng.choice([1e5, 3e7, 1e9, 31536000.0]) + rng.randint(0, 1000), rng.choice([1.0, 60.0, 1000.0, 2.5])
+        else:
+            k = rng.choice([1, 2, 3, 3, 11])
+            t0, h = rng.choice([0.0, 0.5, 9.5, 98.0]), rng.choice([0.5, 1.0, 0.25, 2.5, 0.1])
         case["mixin"] = [[t0 + i * h, h] for i in range(k)]
     r = rng.random()
     if r < 0.6:
@@ -996,6 +1009,12 @@ def gen_case(rng, tier):
     elif r < 0.8:  # steps whose labels have different numbers of digits
         case["steps"] = rng.choice([[9, 10], [2, 10], [8, 9, 10], [7, 12], [99, 100], [5, 11, 100]])
         case["times"] = None
+    elif r < 0.9:  # stratum: LARGE absolute times with small relative spacing (all "%f"-distinguishable)
+        t0 = rng.choice([1e5, 3e7, 1e9, 31536000.0, 5e6]) + rng.randint(0, 1000)
+        h = rng.choice([1.0, 60.0, 1000.0, 2.5, 3600.0])
+        s0 = rng.randint(0, 3)
+        case["steps"] = list(range(s0, s0 + 3))
+        case["times"] = [t0 + h * i for i in range(3)]
     else:  # actual times, as DataSavingMixin.write_pvd_and_vtu passes them
         k = rng.randint(1, 3)
         dt = rng.choice([0.5, 0.25, 2.0, 1.0, 0.1, 7.5])
@@ -1067,7 +1086,9 @@ def stats(cases, impl_outs):
             "stratum_last_step_written_twice": sum(1 for c in cases if c.get("repeat")),
             "input_error_cases": {"partial_data": sum(1 for c in cases if c.get("input") and any(c["input"]["present"]) and not all(c["input"]["present"])),
                                   "wrong_array_size": sum(1 for c in cases if c.get("input") and any(a % b for a, b in c["input"]["sizes"]))},
-            "mixin_paths": {"total": sum(1 for c in cases if c.get("mixin")), "11_steps": sum(1 for c in cases if c.get("mixin") and len(c["mixin"]) == 11)},
+            "mixin_paths": {"total": sum(1 for c in cases if c.get("mixin")), "11_steps": sum(1 for c in cases if c.get("mixin") and len(c["mixin"]) == 11),
+                            "large_times_small_relative_spacing": sum(1 for c in cases if c.get("mixin") and c["mixin"][0][0] >= 1e5)},
+            "stratum_pvd_large_times_small_relative_spacing": sum(1 for c in cases if c["times"] is not None and c["times"][0] >= 1e5),
             "ascii": sum(1 for c in cases if not c["binary"]), "separate_constants": sum(1 for c in cases if c["sep_const"]),
             "with_library_mdg": sum(1 for c in cases if c["base"] is not None),
             "export_import_cycles": len(cases), "import_calls": 4 * len(cases)}
